@@ -20,6 +20,14 @@ def plan(env, tier, seed):
     tasks = cl.split_tasks(env, lambda ty, e: e["kind"] in ("noref", "single"))
     for t in tasks:
         t.update({"n": n, "seed": seed})
+    if tier == "thorough":
+        import genuniverse
+        gu = genuniverse.build(seed, "C10", 24, kinds=["noref", "noref", "single"])
+        for b, e in gu.items():
+            for ty, ent in e["reg"].items():
+                if ty.startswith("_") or ent["kind"] not in ("noref", "single"):
+                    continue
+                tasks.append({"backend": b, "ty": ty, "entry": ent, "bin": e["bin"], "n": 60, "seed": seed})
     return tasks
 
 
